@@ -67,6 +67,22 @@ theorem keys_distinct (d : J) (hn : NodupKeys d) (hpk : ∀ kv ∈ d.getObj "pat
   have := str_append_left_cancel _ _ _ hab
   rw [← (h2 pa hpa).1, ← (h2 pb hpb).1, this]
 
+/-- … hence, in the analyzer's own insertion log, no schema key is written twice: the Go map assignment of
+    `analyzeSchema` never overwrites an entry, and the map has one entry per schema of the document (the `Perm` of
+    `schemas_exact` speaks about the log; this is what carries it to the map) -/
+theorem indexed_keys_distinct (f : Facts) (hf : C11.FactsOK f) (d : J) (hwf : C11.WF d) (hn : NodupKeys d)
+    (hpk : ∀ kv ∈ d.getObj "paths", Doc.isPathKey kv.1 = true) :
+    ((Index.schemas (Analyzer.analyze f d)).map (·.1)).Nodup := by
+  have hp := (schemas_exact f hf d hwf).map (·.1)
+  refine hp.nodup_iff.2 ?_
+  have := keys_distinct d hn hpk
+  simpa [schemaEntry, Function.comp_def] using this
+
+/-- … and the number of entries is the number of schemas -/
+theorem indexed_count (f : Facts) (hf : C11.FactsOK f) (d : J) (hwf : C11.WF d) :
+    (Index.schemas (Analyzer.analyze f d)).length = (allSchemas d).length := by
+  simpa using (schemas_exact f hf d hwf).length_eq
+
 /-- top-level exactly for the entries of the definitions section -/
 theorem toplevel_iff (d : J) : ∀ p ∈ allSchemas d, isTopLevel p.1 = true ↔ ∃ n, p.1 = ["definitions", n] := by
   intro p _
